@@ -97,6 +97,21 @@ pub fn world_child(args: &Args) {
         writeln!(out, "done {i} {} {}", hex(&r), t0.elapsed().as_micros()).ok();
         out.flush().ok();
     }
+    // `TypeOps::Remove.apply(db, <name>, nil)` for every declared name (depth-guarded walk over aliases)
+    for name in w.classes.iter().chain(w.aliases.iter()) {
+        writeln!(out, "rmstart {}", hex(name)).ok();
+        out.flush().ok();
+        let t = LuaType::Ref(LuaTypeDeclId::global(name));
+        let r = vh_common::catch(std::panic::AssertUnwindSafe(|| {
+            emmylua_code_analysis::TypeOps::Remove.apply(w.db(), &t, &LuaType::Nil)
+        }));
+        let s = match r {
+            Ok(x) => ser(&x, true).unwrap_or_else(|k| format!("<outside:{k}>")),
+            Err(m) => format!("<panic:{m}>"),
+        };
+        writeln!(out, "rm {} {}", hex(name), hex(&s)).ok();
+        out.flush().ok();
+    }
 }
 
 /// the alias reference graph of the declaration text has a cycle (predicate of finding
@@ -143,6 +158,11 @@ fn alias_cycle(decls: &str) -> bool {
 
 /// one child run over the pairs `from..` of a world; returns (env, results, index that was in flight
 /// when the budget ran out)
+thread_local! {
+    /// `rm` lines of the last world child (name, serialised result)
+    static LAST_RM: std::cell::RefCell<Vec<(String, String)>> = const { std::cell::RefCell::new(Vec::new()) };
+}
+
 fn run_world_once(w: &World, from: usize, budget: Duration, tag: &str) -> (Option<String>, Vec<Option<(String, u128)>>, Option<usize>) {
     let n = world_pairs(w).len();
     let dir = "/verif/.work";
@@ -189,6 +209,11 @@ fn run_world_once(w: &World, from: usize, budget: Duration, tag: &str) -> (Optio
         let ws: Vec<&str> = line.split(' ').collect();
         match ws.as_slice() {
             ["env", e] if *e != "none" => env = vh_common::unhex(e),
+            ["rm", n, r] => {
+                if let (Some(n), Some(r)) = (vh_common::unhex(n), vh_common::unhex(r)) {
+                    LAST_RM.with(|v| v.borrow_mut().push((n, r)));
+                }
+            }
             ["start", i] => in_flight = i.parse::<usize>().ok(),
             ["done", i, r, us] => {
                 if let (Ok(i), Some(r)) = (i.parse::<usize>(), vh_common::unhex(r)) {
@@ -695,7 +720,22 @@ pub fn run(args: &Args, report: &mut Report) {
         let envh = hex(&env);
         let pairs = world_pairs(&w);
         let tag = format!("{}", std::process::id());
+        LAST_RM.with(|v| v.borrow_mut().clear());
         let (_, results) = run_world(&w, Duration::from_secs(5), &tag);
+        let rms: Vec<(String, String)> = LAST_RM.with(|v| v.borrow().clone());
+        let mut seen_rm = HashSet::new();
+        for (name, real) in rms {
+            if !seen_rm.insert(name.clone()) || real.starts_with('<') {
+                if real.starts_with("<panic") {
+                    report.oracle_failure(json!({"input": {"decls": w.decl_text, "op": "remove-nil", "name": name}, "what": format!("TypeOps::Remove panicked: {real}"), "class": null}));
+                }
+                continue;
+            }
+            report.evaluations += 1;
+            report.count("guard_remove_nil");
+            requests.push(format!("ty.removenil {envh} {}", hex(&format!("(r {})", hex(&name)))));
+            pending.push((json!({"decls": w.decl_text, "op": "remove-nil", "name": name}), format!("RM {}", crate::ser::canon_str(&real, true))));
+        }
         let mut hung_reported = false;
         for ((s, c), r) in pairs.iter().zip(results.iter()) {
             report.evaluations += 1;
@@ -733,6 +773,13 @@ pub fn run(args: &Args, report: &mut Report) {
     let answers = run_driver(&requests);
     for ((req, (input, real)), a) in requests.iter().zip(pending.iter()).zip(answers.iter()) {
         let model = a.strip_prefix("ok ").unwrap_or(a);
+        let model_rm;
+        let model = if real.starts_with("RM ") {
+            model_rm = format!("RM {}", crate::ser::canon_str(model, true));
+            model_rm.as_str()
+        } else {
+            model
+        };
         if model == "unsupported" {
             report.count("guard_model_unsupported");
         } else if model != real {
